@@ -871,8 +871,8 @@ def evidence_programs(rng, bw, n):
                 k = rng.randrange(13)
                 if k >= 10:     # one value used twice: stored as it is, and stored again under a second operation
                     #              (the shared sub-value receives judgements from two different rules)
-                    def unop():
-                        r = rng.randrange(7)
+                    def unop(bias):
+                        r = rng.choice(bias + list(range(7)))
                         if r == 0:
                             a.op("ISZERO")
                         elif r == 1:
@@ -891,10 +891,10 @@ def evidence_programs(rng, bw, n):
                         a.push(4).op("CALLDATALOAD")
                     else:
                         a.push(rng.choice(slots)).op("SLOAD")
-                    unop()
+                    unop([1, 1, 1, 0])              # mostly a comparison / boolean first ...
                     a.raw([0x80])                       # DUP1
                     a.push(s).op("SSTORE")
-                    unop()
+                    unop([0, 0, 0, 1, 3, 4])        # ... then a negation or arithmetic on the very same value
                     a.push(rng.choice(slots + [s + 8])).op("SSTORE")
                 elif k == 0:      # address-masked store
                     a.op("CALLER").push(ADDR_MASK).op("AND").push(s).op("SSTORE")
